@@ -221,6 +221,48 @@ def fanout(kind: int, n: int, ip: int, rp: int, op: int, sel: bool, fail_at: int
     return agree(got, want)
 
 
+@condition(timeout={"quick": 300, "thorough": 900}, functions=["asl_state_Map_delegate", "asl_state_collect_results (MaxConcurrency batches; a last batch shorter than MaxConcurrency)"],
+           outside=["Maps longer than 3 items in this condition (batch arithmetic on long lists: C05's one-step kernels)"])
+def fanout_map_batches(n: int, mc: int, fail_at: int, caught: bool, x: int) -> bool:
+    """
+    requires: 1 <= n <= 3 and 0 <= mc <= 4 and -1 <= fail_at < 3 and 0 <= x <= 1
+    ensures: _
+    """
+    # outcome and error name of a Map whose MaxConcurrency does not divide the item count (or exceeds it), with one
+    # failing iteration anywhere - also in the short last batch - and optionally a Catcher on the Map state
+    n = stubs.cint(n, 1, 3); mc = stubs.cint(mc, 0, 4); fail_at = stubs.cint(fail_at, -1, 2); x = stubs.cint(x, 0, 1)
+    caught = stubs.cbool(caught)
+    from vf import s2 as _s2
+    with _s2.untraced():        # every argument is concrete now: the engine runs outside the tracer
+        return _fanout_map_batches(n, mc, fail_at, caught, x)
+
+
+def _fanout_map_batches(n, mc, fail_at, caught, x):
+    st = {"Type": "Map", "ItemsPath": "$.items", "MaxConcurrency": mc, "ResultPath": "$.r", "Next": "Z",
+          "Iterator": {"StartAt": "I", "States": {"I": {"Type": "Task", "Resource": RES, "End": True}}}}
+    if caught:
+        st["Catch"] = [{"ErrorEquals": ["Boom"], "ResultPath": "$.err", "Next": "Z"}]
+    data = {"x": x, "items": [{"i": k + x} for k in range(n)]}
+    asl = {"StartAt": "F", "States": {"F": st, "Z": {"Type": "Pass", "Result": "z", "ResultPath": "$.z", "End": True}}}
+    calls = [0]
+
+    def outcome(params):
+        k = calls[0]; calls[0] += 1
+        return k == fail_at
+
+    def task_ref(resource, params):
+        return ("err", "Boom") if outcome(params) else ("ok", {"echo": params})
+
+    def task_real(resource, params):
+        return {"errorType": "Boom", "errorMessage": "m"} if outcome(params) else {"echo": params}
+    want = ref.run(asl, copy.deepcopy(data), ctx_for(), task_ref, catch=True)
+    calls[0] = 0
+    got = run_engine(asl, data, task_real)
+    if want[0] == "SUCCEEDED" and got[0] == "SUCCEEDED":
+        return ref.strip_cause(got[1]) == ref.strip_cause(want[1])
+    return agree(got, want)
+
+
 from vf.api import variants
 variants(globals(), fanout, [("_parallel", "kind == 0"), ("_map_n0", "kind == 1 and n == 0"), ("_map_n1", "kind == 1 and n == 1"), ("_map_n2_sel", "kind == 1 and n == 2 and sel"), ("_map_n2", "kind == 1 and n == 2 and not sel")])
 
